@@ -56,13 +56,20 @@ func Main(prop string) {
 		if locate {
 			job.Shifts = []int{1, 3, 10, 100}
 		}
+		watchdog := 10 * time.Minute
+		if tier == "quick" {
+			// a hang must surface inside the quick tier's budget: 100 s per Lint call (context), 150 s without any
+			// progress of the worker (kill). A 96-module batch takes 0.5-2 s on an idle box.
+			job.Timeout = 100
+			watchdog = 150 * time.Second
+		}
 		if v := os.Getenv("VERIF_PAR"); v != "" {
 			fmt.Sscanf(v, "%d", &job.Par)
 		}
 		t0 := time.Now()
 		a := Assemble(r, plan)
 		job.Batches = a.Batches
-		res := RunMaster(os.Args[0], tmp, job, 10*time.Minute)
+		res := RunMaster(os.Args[0], tmp, job, watchdog)
 		writeJSON(out, Summary{Prop: prop, Tier: tier, Counts: a.Counts, Results: res, WallMS: time.Since(t0).Milliseconds()})
 	case "replay":
 		out, rp, tmp := os.Args[2], os.Args[3], os.Args[4]
